@@ -214,7 +214,7 @@ def sg_step(st, op, acc, hist):
                             lambda: translate_circuit(translate_circuit(c, "ionq"), "tangelo", source="ionq"), [c], True)
     if k == "rt_projectq":
         return out_of_place("translate:projectq-roundtrip",
-                            lambda: translate_circuit(translate_circuit(c, "projectq"), "tangelo", source="projectq"), [c], False)
+                            lambda: translate_circuit(translate_circuit(c, "projectq"), "tangelo", source="projectq"), [c], True)
 
     # in-place operations: exceptions tolerated, consistency is checked by sg_check on the resulting state
     fixed = st.fixed
